@@ -8,7 +8,7 @@
 #define NB 3
 #endif
 enum { P_ALL = 0, P_DISABLED = 1, P_ENABLED = 2, P_CHECKING = 3 };
-static uint8_t arena[256];
+static uint8_t arena[32];
 static uint64_t off[NB]; static uint32_t per[NB], stg[NB], present[NB];
 /* which records a period query sees, from the property text */
 static int t_in_period(uint32_t node_period, uint32_t q) { return q == P_ALL || node_period == q || (q == P_ENABLED && node_period != P_DISABLED); }
@@ -18,7 +18,7 @@ static void setup(void) {
   IN_ARR_U64(o, NB); IN_ARR_U32(p, NB); IN_ARR_U32(s, NB); IN_U32(k);
   ASSUME(k <= NB);
   for (int i = 0; i < NB; i++) {
-    off[i] = o[i] & 255; per[i] = 1 + p[i] % 3; stg[i] = s[i] & 3; present[i] = (uint32_t)i < k;
+    off[i] = o[i] & 31; per[i] = 1 + p[i] % 3; stg[i] = s[i] & 3; present[i] = (uint32_t)i < k;
     for (int j = 0; j < i; j++) ASSUME(off[i] != off[j]);            /* live blocks have distinct addresses */
     if (present[i]) h_add(i, arena + off[i], 8, per[i], stg[i]);
   }
@@ -33,7 +33,7 @@ static void check_unchanged_except(int removed) {
 }
 HARNESS(harness_remove) {
   setup();
-  IN_U64(qoff); qoff &= 255;
+  IN_U64(qoff); qoff &= 31;
   int want = -1; for (int i = 0; i < NB; i++) if (present[i] && off[i] == qoff) want = i;
   int32_t r = (int32_t)h_remove(arena + qoff);
   OBSERVE(r);
